@@ -149,3 +149,36 @@ def fragment_directed(keys):
                 out.append((c, "<%s><%s><p>x</%s>y" % (sec, f, f)))
                 out.append((c, "<%s><%s><div><%s>x</%s>y</div>z" % (sec, f, f, f)))
     return out
+
+
+# ---- foreign elements that carry HTML element names, then an HTML integration point, then HTML markup --------
+# (every name-only test in the tree builder meets an element of the same name in another namespace)
+FOREIGN_HTML_NAMES = ["html", "head", "select", "colgroup", "col", "tbody", "thead", "tfoot", "tr", "td", "th", "caption",
+                      "frameset", "frame", "option", "optgroup", "button", "form", "a", "nobr", "applet", "marquee", "object",
+                      "template", "title", "style", "script", "textarea", "input", "address", "rp", "rt", "noscript",
+                      "noframes", "plaintext", "xmp", "iframe", "area", "base", "link", "source", "event-source"]
+FOREIGN_ROOTS = [("<svg>", ["<desc>", "<title>", "<foreignObject>", ""]),
+                 ("<math>", ["<mi>", "<mtext>", "<annotation-xml encoding=text/html>", ""])]
+FOREIGN_PREFIXES = ["", "<table>", "<table><tbody>", "<table><tr>", "<table><tr><td>", "<table><caption>", "<table><colgroup>",
+                    "<select>", "<frameset>", "<p>", "<b>", "<button>", "<ruby>", "<li>"]
+FOREIGN_FOLLOW = ["<table></table>", "<tr>", "<td>x", "</table>", "</tbody>x", "</tr>", "</td>", "<tbody>", "<caption>", "</caption>",
+                  "<colgroup>", "<col>", "<select></select>", "</select>", "<option>", "<frameset>", "</frameset>", "<body>", "</body>",
+                  "</html>", "<html a=1>", "<head>", "<p>x", "</p>", "<li>", "<dd>", "<button>", "</button>", "<form>", "</form>", "<a>",
+                  "</a>", "<b>x</b>", "<nobr>", "<h1>", "</h1>", "<input>", "</br>", "<textarea>", "<plaintext>", "<marquee>", "</marquee>",
+                  "<template>", "</template>", "<svg>", "<math>", "<div>", "</div>", "x", " ", "<!--c-->", "<rp>", "<image>", "<isindex>",
+                  "<table><tr><td>", "</table></p>", "<font color=red></table></h1>", "<tr><td>a</td></tr>x", "<caption>a</caption>b"]
+
+
+def foreign_directed(per=3):
+    out = []
+    i = 0
+    for pre in FOREIGN_PREFIXES:
+        for root, ips in FOREIGN_ROOTS:
+            for nm in FOREIGN_HTML_NAMES:
+                for ip in ips:
+                    for k in range(per):
+                        f = FOREIGN_FOLLOW[(i * 7 + k * 19) % len(FOREIGN_FOLLOW)]
+                        g = FOREIGN_FOLLOW[(i * 11 + k * 5 + 3) % len(FOREIGN_FOLLOW)] if k == 2 else ""
+                        out.append(pre + root + "<" + nm + ">" + ip + f + g)
+                    i += 1
+    return out
